@@ -1,12 +1,14 @@
 // ---- prelude/state.rs : the State family, extracted from /repo on every run ----
+// Field-less enums that the real code compares with `==` get `Structural` (vstd): their derived
+// PartialEq is structural equality.
 //@ type src/delta.rs State
 //@ type src/delta.rs DiffType
 //@ type src/delta.rs MergeParents
 //@ type src/delta.rs InMergeConflict
-//@ type src/delta.rs Source
+//@ type src/delta.rs Source derives=PartialEq,Eq,Structural
 //@ type src/handlers/hunk_header.rs ParsedHunkHeader
 //@ type src/handlers/merge_conflict.rs MergeConflictCommit
-//@ type src/handlers/grep.rs LineType
+//@ type src/handlers/grep.rs LineType derives=Clone,Copy,PartialEq,Eq,Structural
 //@ type src/config.rs GrepType
-//@ type src/handlers/diff_header.rs FileEvent
+//@ type src/handlers/diff_header.rs FileEvent derives=PartialEq,Eq,Structural
 //@ type src/handlers/hunk_header.rs AmbiguousDiffMinusCounter
